@@ -481,6 +481,11 @@ func runHarness(pkgDir, harness string, loopBound, nval int, seed int64, maxPath
 		for _, c := range cexs {
 			mj := modelJSON(c)
 			nr := rp.run(harness, mj)
+			// native nondeterminism the model fixes one way (Go map iteration order, goroutine timing): a witness that
+			// does not reproduce at once is replayed a few more times before it is called unconfirmed
+			for try := 0; try < 4 && !reproduced(c.What, nr) && rp.err == ""; try++ {
+				nr = rp.run(harness, mj)
+			}
 			co := CexOut{What: c.What, Model: c.Model, Slack: c.Slack, Reproduced: reproduced(c.What, nr), modelJSON: mj}
 			var lines []string
 			for _, l := range strings.Split(nr.Out, "\n") {
